@@ -12,7 +12,7 @@ def mk(kind, lens, mask, quick, gt=False, timeout=None):
 def queries():
     qs = []
     for kind in ('part', 'sel'):
-        for lens, quick in (((1,), True), ((3,), True), ((1, 1), True), ((2, 1), True), ((2, 2), True), ((3, 1), True), ((1, 3), False), ((3, 3), False), ((4, 2), False), ((1, 1, 1), True), ((2, 1, 2), False), ((2, 2, 2), False), ((4, 4), False), ((5, 3), False), ((7, 1), False)):
+        for lens, quick in (((1,), True), ((3,), True), ((1, 1), True), ((2, 1), True), ((2, 2), True), ((3, 1), True), ((1, 3), False), ((1, 1, 2), kind == 'part'), ((1, 4), kind == 'part'), ((3, 3), False), ((4, 2), False), ((1, 1, 1), True), ((2, 1, 2), False), ((2, 2, 2), False), ((4, 4), False), ((5, 3), False), ((7, 1), False)):
             qs.append(mk(kind, lens, 3, quick))
         qs.append(mk(kind, (2, 2), 255, False)); qs.append(mk(kind, (2, 2), 3, False, gt=True))
     return qs
